@@ -175,7 +175,7 @@ impl<'a, 't> Gen<'a, 't> {
                 continue;
             }
             let c = if self.t.ratio(1, 8) && self.g.want("STRING_NON_ASCII") {
-                *self.t.pick(&['é', 'ß', 'Ä', '€', '漢', 'ñ'])
+                *self.t.pick(&['é', 'ß', 'Ä', '€', '漢', 'ñ', '\u{a0}', '\u{ad}', '\u{200b}', '\u{3000}', '\u{feff}'])
             } else {
                 let k = 32 + self.t.below(95) as u8;
                 let c = k as char;
